@@ -10,6 +10,7 @@
    code by the correspondence and the by-construction oracle over mutation classes. *)
 From Via Require Import M_Char M_Parse M_Receive P_Parse P_C02.
 From Via Require Import M_Imp M_Loop M_Hdr M_Msg M_Query Gen_Parse P_Imp P_Loop P_Hdr P_Frag P_Msg P_Query.
+From Via Require Import M_Imp M_Loop M_Hdr M_Msg M_Chunk M_Query M_Recv Gen_Parse P_Frag P_C05 P_C06b P_Chunk P_Recv.
 Local Open Scope N_scope.
 
 Theorem C02_head_error_is_invalid : forall cfg v buf q1 rest,
@@ -237,3 +238,42 @@ Proof. exact hd_is_chunked_is_the_source. Qed.
 Print Assumptions C02_missing_host_is_the_source.
 Print Assumptions C02_is_trace_is_the_source.
 Print Assumptions C02_is_chunked_is_the_source.
+
+(* ---- request_receiver::receive itself ----
+   The whole function - head, failure classification (501 / 414 / 400), Host check, TRACE, 400 / 413 / 411, the bytes of
+   the body, VALID, 100-continue, the chunked branch with its 400 / 413 - is translated from clang's AST on every run (a
+   term of M_Recv.v whose calls run the translated functions of all the layers below) and the model's receive, about
+   which the verdict theorems of this file speak, is proved to return what the translated body returns: the Rx value,
+   the receiver afterwards (response code, body, flags, the parsed request and chunk) and the input left unread - for
+   every receiver whose parts satisfy the invariants the connection keeps (body_inv: P_C05; rc_inv: P_C06b; hd_ok:
+   P_Frag), limits below 2^63, every input and every fuel of at least the length of the input plus two. *)
+Theorem C02_receive_is_the_source : forall cfg v buf fuel,
+  body_inv v ->
+  hd_ok (rq_headers (rv_req v)) -> rc_inv (c_lim cfg) (rv_chunk v) -> hd_ok (rc_trailers (rv_chunk v)) ->
+  small (ck_max (rc_hdr (rv_chunk v))) -> small (c_max_content cfg) -> small (nlen (rv_body v)) ->
+  (length buf + 2 <= fuel)%nat ->
+  rrun (rl_lim (c_lim cfg)) (fl_lim (c_lim cfg)) (hd_lim (c_lim cfg)) (ck_lim (c_lim cfg)) (rcode_of (c_lim cfg))
+       (c_max_content cfg) (c_translate_head cfg) (c_concat cfg) rv_clear_src fuel rv_receive_src (rv_store v) buf =
+  (let '(v', rest, r) := receive cfg v buf in
+   match rx_of r with Some c => Some (c, rv_store v', rest) | None => None end).
+Proof. exact receive_is_the_source. Qed.
+(* the premises hold at the start of a connection *)
+Example C02_receive_source_premises :
+  let cfg := mk_rcfg (mk_limits 8190 8 100 65534 1024 8 65534 65534 false) 1048576 1048576 true true false in
+  let v := rv_init cfg in
+  body_inv v /\ hd_ok (rq_headers (rv_req v)) /\ rc_inv (c_lim cfg) (rv_chunk v) /\ hd_ok (rc_trailers (rv_chunk v)) /\
+  small (ck_max (rc_hdr (rv_chunk v))) /\ small (c_max_content cfg) /\ small (nlen (rv_body v)).
+Proof.
+  cbv zeta. split; [apply body_inv_init|]. split; [exact fl_ok_init|]. split; [apply rc_inv_init|]. split; [exact fl_ok_init|]. repeat split.
+Qed.
+(* the translated function really runs: a POST without a length followed by a byte is refused with 411 *)
+Example C02_receive_source_example :
+  let cfg := mk_rcfg (mk_limits 8190 8 100 65534 1024 8 65534 65534 false) 1048576 1048576 true true false in
+  match rrun (rl_lim (c_lim cfg)) (fl_lim (c_lim cfg)) (hd_lim (c_lim cfg)) (ck_lim (c_lim cfg)) (rcode_of (c_lim cfg))
+             (c_max_content cfg) (c_translate_head cfg) (c_concat cfg) rv_clear_src 80 rv_receive_src (rv_store (rv_init cfg))
+             [80;79;83;84;32;47;32;72;84;84;80;47;49;46;49;13;10;72;111;115;116;58;104;13;10;13;10;120] with
+  | Some (VX_INVALID, st, rest) => nth 0 (rs_nums st) 0 = 411 /\ rest = [120]
+  | _ => False
+  end.
+Proof. vm_compute. split; reflexivity. Qed.
+Print Assumptions C02_receive_is_the_source.
